@@ -65,13 +65,32 @@ func mkHistoryLines(g *mkGen, rnd *rand.Rand, n int, runnerSafe bool) []string {
 	for len(res) < n {
 		items := g.line(10, runnerSafe)
 		line := mkLayout{rnd: rnd}.line(items)
-		switch r := rnd.Intn(10); {
+		switch r := rnd.Intn(12); {
 		case r < 6:
 		case r < 9:
 			line = mkBreak(rnd, line)
-		default:
+		case r < 10:
 			if !runnerSafe {
 				line = mkFuzzAssembly(rnd, 48)
+			}
+		default:
+			// Purity is judged by comparing a reused parser with a fresh one, so lines outside the
+			// region where C13 fixes the meaning are welcome here: shapes whose treatment depends on
+			// what the parser remembers of the characters scanned before a marker (escaped brackets,
+			// whitespace), and lines that END in whitespace or fail right after it.
+			if !runnerSafe {
+				switch rnd.Intn(4) {
+				case 0:
+					line = []string{`\[`, `\]`, `\[\]`, `\[\[`}[rnd.Intn(4)] +
+						[]string{"[sigh/]", "[pause trimwhitespace=true]", "[a /]", "[b x=1/]", "[a trimwhitespace=false/]"}[rnd.Intn(5)] +
+						[]string{" ", "\t", "  "}[rnd.Intn(3)] + []string{"silence", "x", "é y"}[rnd.Intn(3)] + []string{"", `\]`, " "}[rnd.Intn(3)]
+				case 1:
+					line = line + []string{" ", "\t", " [", " [a", "\t[/"}[rnd.Intn(5)]
+				case 2:
+					line = mkFuzzMarkers(rnd, 48)
+				default:
+					line = []string{"[a/]", "[sigh/]", "[a trimwhitespace=true]"}[rnd.Intn(3)] + []string{" ", "\t"}[rnd.Intn(2)] + line
+				}
 			}
 		}
 		if strings.TrimSpace(line) == "" {
